@@ -121,7 +121,7 @@ def ops_family(seed, tier, ws):
             da = ints if kinds[0] == 'i' else bytes_
             db = ints if kinds[1] == 'i' else bytes_
             pairs = [(x, y) for x in da for y in db]
-            cap = 8 if name.startswith('src_') else 24
+            cap = 8 if name.startswith('src_') or w != 2 else 16
             if tier == 'quick' and len(pairs) > cap:
                 head = pairs[:cap // 4]
                 rest = pairs[cap // 4:]
